@@ -300,3 +300,33 @@ func init() {
 	register("C13", "R5", "K1", "hand-over: consensus rebuilds LastCommit from the stored seen commit and requires +2/3", 4, ruleReconstructLastCommit)
 	register("C13", "R6", "K1+K11", "the commit verifiers block sync relies on (same rule as C07.R1)", 26, ruleCommitTally)
 }
+
+// ------------------------------------------------------------------ C13.R8
+// v1 scheduling keeps every height up to the tallest remaining peer on the plan: when a peer is removed,
+// planned requests are dropped only for heights strictly above the new maximum, and the next height to plan
+// is pulled back only to that maximum + 1. (Dropping the request for the maximum itself leaves the tip
+// unrequested for ever: the node stops one block short and never hands over to consensus.)
+func init() {
+	register("C13", "R8", "K1", "v1 pool: removing a peer un-plans only heights above the new tallest peer", 3, func(c *Ctx) {
+		w := c.W
+		f := c.fn("blockchain/v1", "BlockPool.RemovePeer")
+		if f == nil {
+			return
+		}
+		fk := funcKey(f)
+		n := 0
+		for _, call := range w.callsTo(f, "builtin#delete") {
+			if !strings.HasPrefix(w.callStr(call), "delete(pool.plannedRequests, ") {
+				continue
+			}
+			n++
+			h := q(w.expr(callArgs(call)[1]))
+			c.guards(f, call, fk+" :: un-plan a height", 0, guardCmp("height strictly above the tallest remaining peer", h, ">", `pool\.MaxPeerHeight`))
+		}
+		c.Check(n == 1, fk+" :: prunes the plan", w.pos(f.Pos()), "1 delete", fmt.Sprintf("%d deletes from plannedRequests", n))
+		for _, fs := range w.fieldStoresIn(f, "blockchain/v1", "BlockPool", "nextRequestHeight") {
+			c.Check(w.arith(fs.Store.Val) == "(pool.MaxPeerHeight + 1)", fk+" :: next height to plan is pulled back to max+1", w.ipos(fs.Store), "MaxPeerHeight + 1", "nextRequestHeight = "+w.arith(fs.Store.Val))
+			c.guards(f, fs.Store, fk+" :: pull back the next height", 0, guardCmp("it was beyond the tallest remaining peer", `pool\.nextRequestHeight`, ">", `pool\.MaxPeerHeight`))
+		}
+	})
+}
